@@ -32,6 +32,8 @@ pub struct RunResult {
     pub log_hash: u64,
     pub steps_done: usize,
     pub rare: u64,
+    /// listed findings that were hit and passed over while the run went on
+    pub known_hits: Vec<String>,
 }
 
 pub fn run_script(script: &Script, known: Arc<Vec<Finding>>) -> RunResult {
@@ -219,6 +221,15 @@ fn run_typed<P: SimPrefix>(script: &Script, known: Arc<Vec<Finding>>) -> RunResu
                     chk!(ctx, "C19", after[c] == before[c], "frame:other-container-changed", "step {:?} changed container #{c}, which it does not operate on: {:?} -> {:?}", st, before[c].ents, after[c].ents);
                 }
             }
+            // C16: "the next insertions reuse slots released by earlier removals": an inserting step
+            // may only grow the arena once the free list is used up
+            if matches!(st, Step::Insert { .. } | Step::Entry { .. } | Step::SInsert { .. }) {
+                for c in out.touched.iter().copied() {
+                    if after[c].nodes.len() > before[c].nodes.len() {
+                        chk!(ctx, "C16", after[c].free.is_empty(), "allocated-while-free-slots", "step {:?} grew the arena from {} to {} slots although {} released slot(s) are still on the free list", st, before[c].nodes.len(), after[c].nodes.len(), after[c].free.len());
+                    }
+                }
+            }
             let changed = (0..after.len()).any(|c| after[c].ents != before[c].ents || after[c].shape_hash != before[c].shape_hash);
             if changed {
                 ctx.stats.changing_steps += 1;
@@ -275,5 +286,5 @@ fn run_typed<P: SimPrefix>(script: &Script, known: Arc<Vec<Finding>>) -> RunResu
         Outcome::Foreign(s) => crate::rng::strhash(s) ^ 2,
         Outcome::Known(v) => crate::rng::strhash(&v.sig) ^ 3,
     });
-    RunResult { outcome, rare: ctx.rare, stats: ctx.stats, log_hash, steps_done }
+    RunResult { outcome, rare: ctx.rare, known_hits: ctx.known_hits, stats: ctx.stats, log_hash, steps_done }
 }
